@@ -3,7 +3,7 @@ E1/E4: system shapes (chain, fan-out, two sources, multi-input PMux, phases) x A
 x plain / heat, rendered through fname=*.raw (pydot's DOT text, parsed by mc/dotparse.py); a fixed subset additionally through real Graphviz
 (fname=*.json) to confirm the DOT is accepted and yields the same node / edge / cluster sets; a loss-magnitude family for the SI labels."""
 import itertools, copy, os, json, re, shutil
-from ..common import Run, Res, seed, quiet_call, VERIF, close
+from ..common import workdir as _wd, cleanup_workdir as _cw, Run, Res, seed, quiet_call, VERIF, close
 from ..sysmodel import build, build_holes, observe, resolve, g, letters, PH2, _r
 from ..muxsys import mux_spec
 from ..dotparse import parse
@@ -76,9 +76,7 @@ def rgb(h):
 
 
 def workdir():
-    d = os.path.join(VERIF, ".work", "C19-%d" % os.getpid())
-    os.makedirs(d, exist_ok=True)
-    return d
+    return _wd()
 
 
 def render(s, heat, fmt, group, conf):
@@ -201,7 +199,11 @@ def check_case(case):
     if fam == "si":
         comps = [dict(n="S1", k="Source", a=dict(vo=10.0), p=[], g="", r="")]
         for j, p in enumerate(case["losses"]):
-            comps.append(dict(n="L%d" % j, k="PLoad", a=dict(pwr=p, loss=True), p=["S1"], g="", r=""))
+            if p >= 1e-5 or p == 0.0:
+                comps.append(dict(n="L%d" % j, k="PLoad", a=dict(pwr=p, loss=True), p=["S1"], g="", r=""))
+            else:  # micro-power: the solver's absolute current tolerance (1e-8 A) would zero a tiny load; use 1 mA through a tiny resistance
+                comps.append(dict(n="L%d" % j, k="RLoss", a=dict(rs=p / 1e-6), p=["S1"], g="", r=""))
+                comps.append(dict(n="I%d" % j, k="ILoad", a=dict(ii=1e-3), p=["L%d" % j], g="", r=""))
         spec = dict(name="si", comps=comps, phases=None)
     elif fam == "names":
         comps = [dict(n=case["names"][0], k="Source", a=dict(vo=5.0), p=[], g="", r="")]
@@ -295,7 +297,7 @@ def replay(doc):
     r = check_case(doc["case"])
     for sig, detail in r.viol[:10]:
         print("  ", sig, detail)
-    shutil.rmtree(os.path.join(VERIF, ".work"), ignore_errors=True)
+    _cw()
     return [s for s, _ in r.viol]
 
 
@@ -304,7 +306,7 @@ def main(tier):
     try:
         run.map(check_case, gen_cases(tier), chunk=8, family="diagrams")
     finally:
-        shutil.rmtree(os.path.join(VERIF, ".work"), ignore_errors=True)
+        _cw()
     run.require(run.stats["graphviz_renders"] >= 10, "too few Graphviz renders")
     run.require("edited-system" in run.classes, "no edited systems rendered")
     return run.finish(
